@@ -270,3 +270,13 @@ TEXT['C20']['text'] += (' S workbound charges storage reads, bytes copied into t
                         'K=16 bound (length fields 2^10..2^20, far pointers 2^14..2^24) and names the cause in its verdict, so that the recorded findings '
                         'D5/D7 do not cover a different cause; S stdwork measures the bytes each inherited precompile allocates against the gas it must be '
                         'paid (search support).')
+TEXT['C13']['text'] += (' "No balance entry exists that does not correspond to such an observation": over every event sequence of the frame machine the '
+                        'invariant RootsApart holds (roots are root-typed arena nodes; neither the flat index nor any children map names a root-typed '
+                        'node), hence no journal instruction - registration or change, accepted or refused, conflicting or not - alters any '
+                        'account\'s balance record (c13_journal_never_touches_balances), and only the two transferring prologues write them '
+                        '(c13_only_transfers_write_balances).')
+TEXT['C19']['text'] += (' In the frame layer a real callTracer / flatCallTracer rides along every single-transaction execution with mock Aspects: it '
+                        'receives the debug callbacks and the Aspect callbacks that aspect-core itself emits, and its result is compared with the '
+                        'call-tracer machine run on the same callbacks (this is how D19 was found).')
+TEXT['C08']['text'] += (' S node also reads the leftover gas of every attempt made by an instruction - accepted or refused up front - off the ISSUING '
+                        'frame\'s own gas around the instruction and requires the node to record exactly that.')
